@@ -50,6 +50,7 @@ func (m *Mutex) Unlock() {
 		m.m.Unlock()
 		panic("sync: unlock of unlocked mutex")
 	}
+	simrt.PreUnlock(unsafe.Pointer(m))
 	m.m.Unlock()
 	simrt.NoteUnlock(unsafe.Pointer(m))
 	simrt.WakeAll(unsafe.Pointer(m))
